@@ -157,3 +157,40 @@ func ZZC19(n int) {
 		zzv.Assert(u1 == u2 && (e1 == nil) == (e2 == nil), "nested-Prefix.URL-differs-from-Router.URL")
 	}
 }
+
+// ZZC19Verbs(n): every verb shorthand of Router, Prefix and Resource against the explicit Handle call.
+func ZZC19Verbs(n int) {
+	a := zzNewRouter("r")
+	b := zzNewRouter("r")
+	h := func(i int) *hnd { return &hnd{id: i} }
+	// Router shorthands
+	a.Get("/g", h(1), zzMW("M1")).Post("/g", h(2)).Delete("/g", h(3), zzMW("M3")).Put("/g", h(4)).Patch("/g", h(5), zzMWs("M5a", "M5b")...).Any("/any", h(6), zzMW("M6"))
+	b.Handle("/g", h(1), zzMWs("M1"), "GET").Handle("/g", h(2), nil, "POST").Handle("/g", h(3), zzMWs("M3"), "DELETE").Handle("/g", h(4), nil, "PUT").Handle("/g", h(5), zzMWs("M5a", "M5b"), "PATCH").Handle("/any", h(6), zzMWs("M6"))
+	// Prefix shorthands
+	p := a.Prefix("/p", zzMW("P"))
+	p.Get("/x/{v}", h(11)).Post("/x/{v}", h(12), zzMW("M12")).Delete("/x/{v}", h(13)).Put("/x/{v}", h(14)).Patch("/x/{v}", h(15)).Any("/pany", h(16)).Handle("/ph", h(17), zzMWs("M17"), "CONNECT", "GET")
+	b.Handle("/p/x/{v}", h(11), zzMWs("P"), "GET").Handle("/p/x/{v}", h(12), zzMWs("M12", "P"), "POST").Handle("/p/x/{v}", h(13), zzMWs("P"), "DELETE").Handle("/p/x/{v}", h(14), zzMWs("P"), "PUT").Handle("/p/x/{v}", h(15), zzMWs("P"), "PATCH").Handle("/p/pany", h(16), zzMWs("P")).Handle("/p/ph", h(17), zzMWs("M17", "P"), "CONNECT", "GET")
+	// Resource shorthands (through a prefix)
+	res := p.Resource("/r/{id:digit}", zzMW("S"))
+	res.Get(h(21)).Post(h(22)).Delete(h(23), zzMW("M23")).Put(h(24)).Patch(h(25))
+	b.Handle("/p/r/{id:digit}", h(21), zzMWs("S", "P"), "GET").Handle("/p/r/{id:digit}", h(22), zzMWs("S", "P"), "POST").Handle("/p/r/{id:digit}", h(23), zzMWs("M23", "S", "P"), "DELETE").Handle("/p/r/{id:digit}", h(24), zzMWs("S", "P"), "PUT").Handle("/p/r/{id:digit}", h(25), zzMWs("S", "P"), "PATCH")
+	res2 := a.Resource("/q", zzMW("T"))
+	res2.Any(h(31)).Remove("PUT", "GET")
+	b.Handle("/q", h(31), zzMWs("T")).Remove("/q", "PUT", "GET")
+	zzv.Assert(p.Pattern() == "/p" && res.Pattern() == "/p/r/{id:digit}" && p.Router() == a && res.Router() == a, "facade-accessors")
+	zzv.Cover("verbs")
+
+	ra, rb := a.Routes(), b.Routes()
+	zzv.Assert(len(ra) == len(rb), "verbs:routes-differ")
+	for _, pat := range []string{"/g", "/any", "/p/x/{v}", "/p/pany", "/p/ph", "/p/r/{id:digit}", "/q"} {
+		zzv.Assert(zzJoin(ra[pat]) == zzJoin(rb[pat]) && len(ra[pat]) > 0, "verbs:method-set-differs-from-explicit-Handle")
+	}
+	val := zzv.Bytes("v", n)
+	for _, path := range []string{"/g", "/any", "/p/x/" + val, "/p/pany", "/p/ph", "/p/r/" + val, "/q"} {
+		for _, m := range []string{"GET", "POST", "DELETE", "PUT", "PATCH", "CONNECT", "HEAD", "OPTIONS"} {
+			oa, wa := zzServe(a, zzReq(m, path))
+			ob, wb := zzServe(b, zzReq(m, path))
+			zzv.Assert(oa.id == ob.id && wa.status == wb.status && zzSameChain(oa.chain, ob.chain) && wa.h.Get("Allow") == wb.h.Get("Allow"), "verbs:shorthand-differs-from-explicit-Handle")
+		}
+	}
+}
